@@ -498,11 +498,11 @@ def _app_request(ctx: Ctx, R: RecvModel, E):
 
 def _is_decoded_realm(v, msg) -> bool:
     """<msg>.destination_realm.decode(...), optionally case-normalised."""
-    if isinstance(v, ast.Call) and isinstance(v.func, ast.Attribute) and v.func.attr in ("lower", "casefold") \
-            and not v.args:
+    seen_decode = False
+    while isinstance(v, ast.Call) and isinstance(v.func, ast.Attribute) and v.func.attr in ("lower", "casefold", "decode"):
+        seen_decode = seen_decode or v.func.attr == "decode"
         v = v.func.value
-    return isinstance(v, ast.Call) and isinstance(v.func, ast.Attribute) and v.func.attr == "decode" \
-        and ast.unparse(v.func.value) == f"{msg}.destination_realm"
+    return seen_decode and ast.unparse(v) == f"{msg}.destination_realm"
 
 
 def _routes(ctx: Ctx, model, nc):
